@@ -123,7 +123,7 @@ def outStr : Out → String
 def refDb (prog : List Clause) (inputs : List (Name × List Tup)) : Name → List Tup :=
   look inputs (iter prog inputs (evalFuel prog inputs) ((heads prog).map fun n => (n, (aget inputs n).getD [])))
 
-def clausesNow (s : St) (n : Name) : List Clause := (aget s.catalog n).getD []
+-- (clausesNow is defined in the model)
 
 def staleNames (s : St) : List Name :=
   match s.inc with
